@@ -25,6 +25,12 @@ PROPS = {
                 preds=["LongModeIndependent", "RewriteEquiv"]),
     "C08": dict(families=["wrapper", "conserve"], lens={"err", "warn", "rest"}, rand=("C08", 6000, 150000),
                 preds=["UnknownNeverDropped"]),
+    "C10": dict(families=["tree"], lens={"ran", "derr", "helpof", "rest", "writer"}, rand=("C10", 6000, 150000),
+                preds=["ExactlyOneFn", "DeepestCommand"]),
+    "C11": dict(families=["required"], lens={"err", "derr", "ran", "helpof", "writer"}, rand=("C11", 6000, 150000),
+                preds=["RequiredEnforced"]),
+    "C12": dict(families=["env"], lens={"vals", "called", "as"}, rand=("C12", 6000, 150000),
+                preds=["EnvPrecedence", "CalledExact", "UntouchedKeepDefault"]),
     "C09": dict(families=["term", "conserve"], lens={"rest", "vals", "called"}, rand=("C09", 6000, 150000),
                 preds=["StopRoles", "PrefixAsUnordered", "NoStopAsUnordered", "Frozen (action property)"]),
 }
@@ -49,6 +55,12 @@ MANIFEST_TEXT = {
     "C08": _mt("DESIGN.md 5 C08", "UnknownNeverDropped checked by TLC over trees with wrappers and unknown tokens before/after command tokens in 3 unknown modes; real error / warning / remaining validated."),
     "C09": _mt("DESIGN.md 5 C09", "StopRoles, PrefixAsUnordered and NoStopAsUnordered (relational: state before the stop point equals the state of an unordered parse of the prefix) checked by TLC; real outcomes validated."),
 }
+
+MANIFEST_TEXT.update({
+    "C10": _mt("DESIGN.md 5 C10", "ExactlyOneFn and DeepestCommand (the node reached by following exactly the tokens with ghost role cmd) checked by TLC over command trees with functions, own/inherited options, wrappers, require-order and help; the harness's instrumented CommandFns record which function ran how often, with which context, arguments and option view, and TLC validates that against the spec."),
+    "C11": _mt("DESIGN.md 5 C11", "RequiredEnforced checked by TLC with required options at every level x custom messages x env binding x help by option, alias, abbreviation and help command; real Parse/Dispatch errors (errors.Is(ErrorParsing), custom message), help level and executed functions validated; which of several missing options is named is left open here (C20 fixes the rule)."),
+    "C12": _mt("DESIGN.md 5 C12", "EnvPrecedence with the definition-time environment step modelled before any command-line step, checked by TLC for every supported kind x env text class x CLI spelling; real values, Called and CalledAs validated."),
+})
 
 MC_CFG = """SPECIFICATION Spec
 CONSTANTS
@@ -90,8 +102,12 @@ def validate_trace(work, name, trace):
 
 def run_driver(gopt, args, trace):
     p = subprocess.run([gopt] + args + ["-out", trace], stdout=subprocess.PIPE, stderr=subprocess.STDOUT, text=True, env=GOENV)
-    info = {"cases": 0, "nontrivial": 0, "hang": None}
+    info = {"cases": 0, "nontrivial": 0, "hang": None, "stats": {}}
     for line in p.stdout.splitlines():
+        if line.startswith("STATS "):
+            for k, v in json.loads(line[6:]).items():
+                info["stats"][k] = info["stats"].get(k, 0) + v
+            continue
         for kv in line.split():
             if "=" in kv:
                 k, v = kv.split("=", 1)
@@ -127,7 +143,7 @@ def drive_and_validate(work, gopt, jobs):
     def one(job):
         name, arglists = job
         trace = os.path.join(work, "tr", name + ".ndjson")
-        info = {"cases": 0, "nontrivial": 0, "hang": None}
+        info = {"cases": 0, "nontrivial": 0, "hang": None, "stats": {}}
         with open(trace, "w") as out:
             for i, args in enumerate(arglists):
                 part = trace + ".part%d" % i
@@ -135,6 +151,8 @@ def drive_and_validate(work, gopt, jobs):
                 info["cases"] += inf["cases"]
                 info["nontrivial"] += inf["nontrivial"]
                 info["hang"] = info["hang"] or inf["hang"]
+                for k2, v2 in inf["stats"].items():
+                    info["stats"][k2] = info["stats"].get(k2, 0) + v2
                 if os.path.exists(part):
                     with open(part) as f:
                         shutil.copyfileobj(f, out)
@@ -186,6 +204,11 @@ def check(prop, tier, seed, work, replay, t0):
 
     cases = sum(r["info"]["cases"] for r in results)
     nontrivial = sum(r["info"]["nontrivial"] for r in results)
+    classes = {}
+    for r in results:
+        for k2, v2 in r["info"]["stats"].items():
+            classes[k2] = classes.get(k2, 0) + v2
+    log("outcome classes of the executed cases: %s" % json.dumps(classes, sort_keys=True))
     known = load_findings()
     violations, notes, unverifiable, specfail, knownhits = [], 0, 0, [], {}
     samples = []
@@ -265,6 +288,7 @@ def check(prop, tier, seed, work, replay, t0):
         "samples": samples or [{"note": "no sample"}],
         "exhaustive": True,
         "families": P["families"], "lens": sorted(P["lens"]), "spec_predicates": P.get("preds", []),
+        "outcome_classes": classes,
         "out_of_lens_differences": notes, "undecidable_cases": unverifiable, "known_finding_cases": sum(knownhits.values()),
     }
     write_evidence(prop, tier, seed, "model_checking", coverage,
